@@ -817,7 +817,8 @@ func judge(i int, op string, r row, res, trace string) {
 		if trace != "changed" {
 			run.Note(fmt.Sprintf("%s reported success but nothing changed: %s", op, r.facts()))
 		}
-	} else if trace == "changed" {
+	} else if trace == "changed" && res != "err:lookup" {
+		// a permission refusal (any of the identifiers of errNames) that left a trace
 		run.Fail(i, "refused-sideeffect:"+op, fmt.Sprintf("%s refused (%s) but the boards tree or the author's .PASSWDS record changed", op, res))
 	}
 }
